@@ -428,7 +428,8 @@ def main(argv):
 
     arrays, ops = make_ops(sr, seed, n)
     dig = run_ops(ops)
-    json.dump({"digests": dig, "maxsize": ac._fuseinfo_cache_maxsize, "maxsectors": ac._fuseinfo_cache_maxsectors, "hits": ac._fi_hit, "missed": ac._fi_missed}, open(outfile, "w"))
+    g = lambda n: getattr(ac, n, None)  # statistics only; None when the library no longer has them
+    json.dump({"digests": dig, "maxsize": g("_fuseinfo_cache_maxsize"), "maxsectors": g("_fuseinfo_cache_maxsectors"), "hits": g("_fi_hit") or 0, "missed": g("_fi_missed") or 0}, open(outfile, "w"))
 
 
 if __name__ == "__main__":
